@@ -317,6 +317,7 @@ contract(F, 'SystemClock._run', props=('C05', 'C08'),
          ensures=[('returns-only-when-stopped', lambda c: z3.Not(c.post.cls('SystemClock')._run_sched))],
          loops=LOOPS_SYS, hooks=HOOKS, fields=FIELDS, class_modules={'SystemClock': F},
          policies={'SystemClock._sched_add': 'opaque'}, native=False,
+         opts={'exceptions_stay_inside': True},      # C08: "An exception raised by one task ... affects neither the other tasks nor the clock"
          note='per-iteration obligations of the perform loop are its loop invariant '
               '(checked at the end of the body on the ghost trace of that iteration)')
 
@@ -467,4 +468,4 @@ contract(F, 'TempoClock._run', props=('C05', 'C08'),
          loops=LOOPS_T, hooks=HOOKS, fields=FIELDS, class_modules={'TempoClock': F},
          policies={'TempoClock._sched_add': 'opaque', 'TempoClock.running': ghost_bool('__running')},
          inline=('TempoClock.elapsed_beats', 'TempoClock.beats2secs', 'TempoClock.secs2beats'),
-         native=False)
+         opts={'exceptions_stay_inside': True}, native=False)
